@@ -3019,13 +3019,19 @@ void hwloc_free_xmlbuffer(hwloc_topology_t topology __hwloc_attribute_unused, ch
 {
   int force_nolibxml;
 
-  assert(hwloc_nolibxml_callbacks); /* the core called components_init() for the topology */
+  /* the buffer may come from hwloc_topology_diff_export_xmlbuffer(),
+   * there is no guarantee that a topology still holds the components.
+   */
+  hwloc_components_init();
+  assert(hwloc_nolibxml_callbacks);
 
   force_nolibxml = hwloc_nolibxml_export();
   if (!hwloc_libxml_callbacks || (hwloc_nolibxml_callbacks && force_nolibxml))
     hwloc_nolibxml_callbacks->free_buffer(xmlbuffer);
   else
     hwloc_libxml_callbacks->free_buffer(xmlbuffer);
+
+  hwloc_components_fini();
 }
 
 void
